@@ -57,6 +57,7 @@ PURE_METHODS = {
     frozenset: {"union", "copy", "intersection", "difference", "symmetric_difference", "issubset", "issuperset", "isdisjoint"},
 }
 import struct as _struct
+import types as _types
 import base64 as _b64
 import binascii as _binascii
 PURE_FUNCS = {"re.escape": _re.escape, "struct.unpack": _struct.unpack, "struct.unpack_from": _struct.unpack_from, "struct.pack": _struct.pack, "struct.calcsize": _struct.calcsize,
@@ -162,7 +163,7 @@ class MiniEval(object):
             if isinstance(it, dict):
                 it = list(it.keys())
             try:
-                seq = list(it)
+                seq = it if isinstance(it, _types.GeneratorType) else list(it)      # (a generator is consumed as the loop asks for values)
             except TypeError:
                 raise Undecided("minieval: loop over %s" % norm(st.iter))
             broke = False
@@ -389,26 +390,29 @@ class MiniEval(object):
             except TypeError:
                 raise Undecided("minieval: subscript of %s" % norm(e.value))
         if isinstance(e, (ast.ListComp, ast.SetComp, ast.GeneratorExp, ast.DictComp)):
-            out = []
-
-            def gen(i, env2):
+            def gen(i, env2, first=None):
                 if i == len(e.generators):
                     if isinstance(e, ast.DictComp):
-                        out.append((self.ev(e.key, env2), self.ev(e.value, env2)))
+                        yield (self.ev(e.key, env2), self.ev(e.value, env2))
                     else:
-                        out.append(self.ev(e.elt, env2))
+                        yield self.ev(e.elt, env2)
                     return
                 g = e.generators[i]
-                it = self.ev(g.iter, env2)
+                it = first if i == 0 and first is not None else self.ev(g.iter, env2)
                 if isinstance(it, dict):
                     it = list(it.keys())
-                for x in list(it):
+                for x in (it if isinstance(it, _types.GeneratorType) else list(it)):
                     self.tick()
                     env3 = dict(env2)
                     self.assign(g.target, x, env3)
                     if all(self.truth(self.ev(c, env3)) for c in g.ifs):
-                        gen(i + 1, env3)
-            gen(0, dict(env))
+                        yield from gen(i + 1, env3)
+            if isinstance(e, ast.GeneratorExp):
+                # a generator expression evaluates its outermost iterable at once and everything else when asked for a value:
+                # what is evaluated, and in which order, is part of what the evaluated function does (a search that stops early)
+                it0 = self.ev(e.generators[0].iter, env)
+                return gen(0, dict(env), first=it0 if not isinstance(it0, dict) else list(it0.keys()))
+            out = list(gen(0, dict(env)))
             if isinstance(e, ast.DictComp):
                 return dict(out)
             return set(out) if isinstance(e, ast.SetComp) else out
@@ -461,6 +465,13 @@ class MiniEval(object):
             return ("<type>", type(args[0]).__name__)
         if isinstance(e.func, ast.Name) and e.func.id == "str" and len(args) == 1 and isinstance(args[0], tuple) and args[0] and args[0][0] == "<exc>":
             return str(args[0][2][0]) if args[0][2] else ""
+        if isinstance(e.func, ast.Name) and e.func.id == "next" and "next" not in env and 1 <= len(args) <= 2 and not kwargs and isinstance(args[0], _types.GeneratorType):
+            try:
+                return next(args[0])
+            except StopIteration:
+                if len(args) == 2:
+                    return args[1]
+                raise Raised("StopIteration", ())
         if isinstance(e.func, ast.Name) and e.func.id in PURE_BUILTINS and e.func.id not in env:
             try:
                 r = PURE_BUILTINS[e.func.id](*args, **kwargs)
